@@ -851,6 +851,9 @@ def check(prop, tier, seed):
         for e in out["errors"][:5]:
             print(f"HARNESS-ERROR: {e}", flush=True)
         return EXIT_HARNESS
+    if os.environ.get("VERIF_PRINT_COUNTS"):
+        for k, v in sorted(out["sig_counts"].items(), key=lambda kv: -kv[1])[:30]:
+            print(f"  seen {v:6d}x {k}")
     # determinism sample (DESIGN 2.4): the first batch of the first interpreter again - same hash
     # seed, fresh interpreter, same order (so the same in-process history); the complete event
     # logs must be byte-identical
